@@ -147,7 +147,7 @@ func drain(rd io.Reader, sizes func() int, limit int) (rr readRun) {
 		for k, n := range []int{1, 64, 5000} {
 			p := make([]byte, n)
 			m, e := rd.Read(p)
-			if m != 0 || e != rr.err {
+			if m != 0 || !errIdentical(e, rr.err) {
 				rr.sticky = fmt.Sprintf("Read #%d after the error %v returned (%d, %v)", k+1, rr.err, m, e)
 				return
 			}
